@@ -10,6 +10,9 @@ def run(tier, seed):
     lines_universe(rep, "vf.oracles:c15_roundtrip", tier, "Token.as_dict/from_dict, SyntaxTreeNode, RendererHTML.render",
                    "dict round trip (both attribute formats) equal and renders equal; tree round trip, walk order, parent/sibling links; render twice equal, tokens unchanged (except image alt)")
     inline_universe(rep, "vf.oracles:c15_roundtrip", tier, "same", "same contract on inline-heavy inputs", quick_k=2, thorough_k=3)
+    from ..propbase import gen_universe
+    gen_universe(rep, "vf.oracles:c15_roundtrip", "vf.universe:gen_emph", tier, "same", "same contract on delimiter-heavy inputs, incl. a configuration without fragments_join (token levels not recomputed)",
+                 ["commonmark", "cm-fragjoin"], "all concatenations of <= k pieces over {*, **, _, ~~, ~, a, space, [, ](x), b}", "delimiter universe")
     rep.explanation = ("Mixed. Frame back end: every write site in renderer.py/token.py/tree.py targets per-call objects (FRAME obligations), i.e. the renderer writes nothing but "
                        "token-local state. Bounded: the round-trip and repeatability relations on parser output over the line and inline universes (structural inductions over the token list are not attempted deductively).")
     rep.trusted_base = STD_TRUST
